@@ -143,7 +143,7 @@ def gen_itp(rng, tier, rich, big=None):
     for i in range(n):
         nr.append(cur)
         cur += 1 if rng.random() < 0.8 else rng.randint(2, 9)
-    name = rng.choice(["MOL", "BMIM", "LIG_1", "popc", "W", "Prot-A"]) + str(rng.randint(0, 99))
+    name = rng.choice(["MOL", "BMIM", "LIG_1", "popc", "W", "Prot-A", "Protein_chain_A", "POLY-ETHYLENE-GLYCOL-"]) + str(rng.randint(0, 99))
     n_res = rng.choice([1, 1, 2, 3, 5]) if n > 1 else 1
     n_res = min(n_res, n)
     cuts = sorted(rng.sample(range(1, n), n_res - 1)) if n_res > 1 else []
